@@ -8,6 +8,7 @@ From Alator Require Import Model.Num Model.Quirks Model.Exchange Model.Uist Mode
   Proofs.ServerProofs.
 Import ListNotations.
 Local Open Scope num_scope."""
+IMP7 = IMP.replace("Proofs.ServerProofs.", "Proofs.ServerProofs Model.Penelope Proofs.PenelopeProofs.")
 
 gen("C02", "C02 — Uist fills honour limit/stop conditions and use the correct side of the quote. Statements only. "
     "Every statement is for every number type F with operations Num F: no law of arithmetic is assumed, so they "
@@ -50,7 +51,9 @@ gen("C18", "C18 — Jura: one-shot market orders, resting limits, triggers spawn
 ])
 
 gen("C07", "C07 — a backtest visits every dataset date exactly once, in order, then stops. Statements only; for EVERY "
-    "exchange (the server model is generic in it) and the defect-free valuation.", IMP, [
+    "exchange (the server model is generic in it) and the defect-free valuation. The datasets the clock walks are "
+    "those Penelope::add_quote builds (Model/Penelope.v): c07_dataset_* prove, for every loading script, the facts "
+    "about datasets that the clock theorems and C01/C11 take as premises.", IMP7, [
     ("c07_fresh_backtest_clock", "clock_fresh", "A new backtest shows the first date, position 0."),
     ("c07_create_spec", "create_spec", "init / new_backtest create exactly that: a backtest at the first date with a fresh exchange."),
     ("c07_tick", "tick1_spec", "The k+1-th tick matches orders against exactly the row of the date the clock shows after k ticks (nothing when the dataset has no row for it), then shows date index min(k+1, N-1) and reports has_next iff k+1 < N."),
@@ -59,6 +62,12 @@ gen("C07", "C07 — a backtest visits every dataset date exactly once, in order,
     ("c07_fetch_quotes", "fetch_spec", "fetch_quotes shows the row of the clock date — never a row of another (later) date."),
     ("c07_loop_count", "client_loop_count", "A client looping `while has_next { tick }` from a backtest that has done k <= N ticks performs exactly N - k more ticks whenever it returns …"),
     ("c07_loop_terminates", "client_loop_terminates", "… and it returns for any fuel above N - k when the exchange does not panic: the loop terminates after exactly N ticks from a fresh backtest."),
+    ("c07_dataset_dates", "load_dates", "Dataset: whatever the order and repetition in which quotes are added, the dates a backtest walks are the DISTINCT dates of the loading script in order of first appearance — no date twice."),
+    ("c07_dataset_dates_increasing", "load_sorted", "Dataset: a script whose dates never go back (any number of symbols per date, quotes re-added at will) yields strictly increasing dates d1 < ... < dN."),
+    ("c07_dataset_invariant", "load_inv", "Dataset: dates are pairwise distinct, there is exactly one row per date in the same order, every row is keyed uniquely, non-empty, and each of its quotes carries the row's date and its own symbol."),
+    ("c07_dataset_rows_own_date", "load_rows_own_date", "Dataset: every quote a row shows is dated with that row's date and filed under its own symbol (so a client is never shown a quote dated otherwise than the clock)."),
+    ("c07_dataset_row_iff_date", "load_row_iff_date", "Dataset: a date has a row exactly when it is one of the dataset's dates, so a tick never meets a missing row."),
+    ("c07_dataset_shows_last_added", "load_shows_last_call", "Dataset: for every (date, symbol) the quote shown is the LAST one added for that pair, and nothing is shown for a pair never added (specification written independently as a recursion over the script)."),
     ("c07_refuted_q_jura_pos_stuck", "c07_refuted_q_jura_pos_stuck", "Refuted for the Jura service as it was (pos never stored): on a 3-date dataset has_next stays true for ever and the clock parks on the second date (kernel-evaluated witness)."),
 ])
 
